@@ -231,9 +231,10 @@ def run(c):
                       "the number of handlers *actually executing* and data-race freedom are runtime behaviour: explored end-to-end under -race, not proved"]
     lines = replay_lines(c, "rpccalls.wp") + replay_lines(c, "rpccalls.rm") + replay_lines(c, "rpccalls.srv")
     syms = ["g", "k", "X", "c0", "c1", "pL0", "pL1", "pH0"]
-    maxlen = 6 if c.thorough else 5
+    maxlen = 5 if c.thorough else 4
     for create in (-1, 0, 1, 2, 3):
-        for n in range(0, maxlen + 1):
+        top = maxlen + 1 if create in ((1, 2) if c.thorough else (2,)) else maxlen
+        for n in range(0, top + 1):
             for p in product(syms, n):
                 ops = concretise(p, create)
                 if ops is not None:
@@ -246,7 +247,7 @@ def run(c):
         lines.append("rpccalls.wp 2 " + bad)
     # request memory: exhaustive small + random
     alpha = ["a1:4", "a2:7", "a3:2", "a4:11", "r1", "r2", "r3", "x2", "x3"]
-    for n in range(0, (6 if c.thorough else 5) + 1):
+    for n in range(0, (5 if c.thorough else 4) + 1):
         for p in product(alpha, n):
             # an id is acquired at most once per line
             if all(p.count(a) <= 1 for a in alpha[:4]):
@@ -279,9 +280,9 @@ def run(c):
                     or (int(f[1]) > 16777215 and int(d["size"]) != int(f[1])):
                 c.oracle_fail(l, "NewServer does not configure the requested limits: %s" % a, l)
     rpccalls_e2e.run_e2e(c, "C39")
-    c.extra["rule"] = ("workerPool: for create in {-1,0,1,2,3} every valid history of length <= %d over {Get, spurious wake, Close, GC(expired/not), "
+    c.extra["rule"] = ("workerPool: for create in {-1,0,1,2,3} every valid history of length <= %d (one more for limit 2%s) over {Get, spurious wake, Close, GC(expired/not), "
                        "Put(lowest/highest busy worker, oldest free expired/not)}, %d random histories (length 4..150, limits 1..8), malformed puts; "
                        "request memory: every history of length <= %d over 4 acquisitions/3 releases/2 cancellations at limit 10, %d random "
                        "histories over limits 1..16777215 with sizes around buffer size, limit/3, and above the limit; 504 NewServer option triples; "
                        "distinct = distinct line text; non-trivial = a worker was handed out / a request admitted. End-to-end: see e2e_rule." % (
-                           maxlen, 20000 if c.thorough else 3000, 6 if c.thorough else 5, 15000 if c.thorough else 2500))
+                           maxlen, " and 1" if c.thorough else "", 20000 if c.thorough else 3000, 5 if c.thorough else 4, 15000 if c.thorough else 2500))
